@@ -36,11 +36,13 @@ def run(ck):
     ck.rule("C11.R3", "prefix direction and field-name constraints", floor=3)
     ck.rule("C11.R4", "Ord: target length first, reversed (most specific first)", floor=4)
     ck.rule("C11.R5", "span-scoped directives: push/pop pairing, per-thread scope", floor=5)
+    ck.rule("C11.R6", "every entered matching span's level is consulted: enabled if ANY scope entry >= level", floor=2)
     r1(ck, F)
     r2(ck, F)
     r3(ck, F)
     r4(ck, F)
     r5(ck, F)
+    r6(ck, F)
 
 
 def r1(ck, F):
@@ -264,3 +266,99 @@ def r5(ck, F):
             ck.ok("C11.R5", "on_new_span stores a matcher iff the callsite has span-scoped directives", fn=ns.path)
         else:
             ck.bad("C11.R5", "on_new_span stores a matcher iff the callsite has span-scoped directives", where(ns.raw["sp"]), "insert not guarded by the by_cs lookup", fn=ns.path)
+
+
+def r6(ck, F):
+    """EnvFilter::enabled: the per-thread scope stack is traversed exhaustively and any entry >= level enables.
+    (A matching span stays entered while inner spans are entered, so looking only at the innermost entry would drop
+    events the outer span's directive enables.)"""
+    EF = E + "EnvFilter"
+    b = F.body(EF + "::enabled")
+    if not ck.anchor("C11.R6", "EnvFilter::enabled", b):
+        return
+    key = "enabled: any scope entry >= level enables"
+    bodies = [b] + F.closures_of(b)
+    scope_calls = [bb for bb, t in b.calls() if t["callee"].get("method") == "get_or_default"]
+    if len(scope_calls) != 1:
+        ck.bad("C11.R6", key, where(b.raw["sp"]), "%d reads of the scope stack (expected 1)" % len(scope_calls), fn=b.path)
+        return
+    found = []
+    why = []
+    for x in bodies:
+        for bb, t in x.calls():
+            c = t["callee"]
+            if c.get("method") != "ge" or "LevelFilter" not in (c.get("full") or c.get("path") or "") or len(t["argv"]) != 2:
+                continue
+            o = x.origin(t["argv"][0])
+            if x is b and o[0] == "call" and o[2]["callee"].get("method") == "next" and "Iter" in (o[2]["callee"].get("full") or ""):
+                nbb = o[1]
+                in_loop = nbb in x.reachable(x.succ(nbb)[0]) if x.succ(nbb) else False
+                it = x.origin(o[2]["argv"][0])
+                from_scope = derives_from_call(x, it, scope_calls[0])
+                if in_loop and from_scope:
+                    # a hit returns true
+                    hit = [a[1] for a in x.term(t["ret"])["arms"]] if x.term(t["ret"])["k"] == "switch" else []
+                    other = x.term(t["ret"]).get("otherwise") if x.term(t["ret"])["k"] == "switch" else None
+                    rets = set()
+                    if other is not None:
+                        for p in PathEval(x).run(start=other):
+                            if p.end == "return":
+                                rets.add(show(p.ret))
+                    if rets == {"1"}:
+                        found.append("loop over the scope stack; a hit returns true")
+                    else:
+                        why.append("a scope entry >= level does not make enabled return true (returns %s)" % sorted(rets))
+                else:
+                    why.append("the compared filter comes from Iterator::next but %s" % ("not inside a loop" if not in_loop else "not from the scope stack"))
+            elif x is not b and o[0] == "arg":
+                # closure given to Iterator::any over the scope
+                anyc = [(bb2, t2) for bb2, t2 in b.calls() if t2["callee"].get("method") == "any"]
+                if anyc and derives_from_call(b, b.origin(anyc[0][1]["argv"][0]), scope_calls[0]):
+                    found.append("Iterator::any over the scope stack")
+                else:
+                    chain = []
+                    for bb2, t2 in b.calls():
+                        for a in t2["argv"]:
+                            oa = b.origin(a)
+                            cd = (oa[1].get("agg", {}).get("closure") if oa[0] == "agg" else oa[1].get("closure") if oa[0] == "const" else None)
+                            if cd == x.path:
+                                r = b.origin(t2["argv"][0])
+                                chain = [t2["callee"].get("method")]
+                                while r[0] == "call" and len(chain) < 6 and r[1] != scope_calls[0]:
+                                    chain.append(r[2]["callee"].get("method"))
+                                    r = b.origin(r[2]["argv"][0]) if r[2]["argv"] else ("none",)
+                    why.append("the compared scope entry reaches the comparison through %s, not through an exhaustive traversal (loop or Iterator::any) of the scope stack: "
+                               "an outer entered span's directive is ignored" % (" <- ".join(str(c) for c in chain) or "a closure"))
+            elif x is b and o[0] == "call" and o[2]["callee"].get("method") in ("last", "first", "get", "index", "pop", "last_mut"):
+                if derives_from_call(x, x.origin(o[2]["argv"][0]), scope_calls[0]):
+                    why.append("only the `%s` entry of the scope stack is compared with the level: an outer entered span's more verbose directive is ignored while an inner matching span is entered" % o[2]["callee"].get("method"))
+    if found and not why:
+        ck.ok("C11.R6", key, fn=b.path, detail=found)
+    else:
+        ck.bad("C11.R6", key, where(b.raw["sp"]), "; ".join(sorted(set(why))) or "no comparison of scope entries with the level found", fn=b.path)
+    # the pushed value is the matcher's level for that span
+    oe = F.body(EF + "::on_enter")
+    if ck.anchor("C11.R6", "EnvFilter::on_enter", oe):
+        push = [(bb, t) for bb, t in oe.calls() if t["callee"].get("method") == "push"]
+        ok = False
+        if len(push) == 1:
+            o = oe.origin(push[0][1]["argv"][1])
+            ok = o[0] == "call" and o[2]["callee"].get("method") == "level" and "SpanMatch" in (o[2]["callee"].get("full") or o[2]["callee"].get("path") or "")
+        if ok:
+            ck.ok("C11.R6", "on_enter pushes the entered span's matcher level", fn=oe.path)
+        else:
+            ck.bad("C11.R6", "on_enter pushes the entered span's matcher level", where(oe.raw["sp"]), "the pushed value is not MatchSet<SpanMatch>::level() of the span's matcher", fn=oe.path)
+
+
+def derives_from_call(body, o, call_bb, depth=0):
+    """Does origin `o` trace back (through receiver arguments of calls) to the call at block `call_bb`?"""
+    while depth < 12:
+        depth += 1
+        if o[0] != "call":
+            return False
+        if o[1] == call_bb:
+            return True
+        if not o[2]["argv"]:
+            return False
+        o = body.origin(o[2]["argv"][0])
+    return False
